@@ -172,6 +172,7 @@ func (c *conn) writeloop() {
 				if errors.Is(err, net.ErrClosed) {
 					err = io.ErrClosedPipe
 				}
+				verifAt("client.writeloop.report")
 				req.err <- err
 				close(req.err)
 				// Close the client
@@ -208,6 +209,7 @@ func (c *conn) send(ctx context.Context, msg *kmip.RequestMessage) error {
 		return err
 	}
 	tx := c.tx.Load().(chan txMsg)
+	verifAt("client.send.loaded")
 	errCh := make(chan error)
 	select {
 	case tx <- txMsg{msg: msg, err: errCh}:
@@ -271,5 +273,6 @@ func (c *conn) roundtrip(ctx context.Context, msg *kmip.RequestMessage) (*kmip.R
 	if err := c.send(ctx, msg); err != nil {
 		return nil, err
 	}
+	verifAt("client.roundtrip.sent")
 	return c.recv(ctx)
 }
